@@ -817,7 +817,9 @@ class CompressedBytesColumn(Column):
 
         def __iter__(self):
             for v in VarBytesColumn.Reader.__iter__(self):
-                yield self._decompress(v)
+                if v:
+                    v = self._decompress(v)
+                yield v
 
         def load(self):
             return list(self)
@@ -944,9 +946,8 @@ class CompressedBlockColumn(Column):
             for i, block in enumerate(self._blocks):
                 startdoc = block[0]
                 enddoc = block[1]
-                if startdoc > (last + 1):
-                    for _ in xrange(startdoc - last):
-                        yield emptybytes
+                for _ in xrange(startdoc - last - 1):
+                    yield emptybytes
                 values = self._get_block(i)
                 for docnum in xrange(startdoc, enddoc + 1):
                     if docnum in values:
@@ -954,9 +955,8 @@ class CompressedBlockColumn(Column):
                     else:
                         yield emptybytes
                 last = enddoc
-            if enddoc < self._doccount - 1:
-                for _ in xrange(self._doccount - enddoc):
-                    yield emptybytes
+            for _ in xrange(self._doccount - last - 1):
+                yield emptybytes
 
 
 class StructColumn(FixedBytesColumn):
